@@ -285,8 +285,8 @@ def run(tier, seed):
     pool = RunnerPool()
     cases = gen_cases(ck, tier)
     failing = evaluate(ck, cases, pool)
-    if (not ck.proof["ok"] or ck.cov["model_disagreements"]) and not [f for f in failing if not f["tags"]] and tier == "quick":
-        log("[C17] proof or correspondence broken: enlarging the search")
+    if (not ck.proof["ok"] or ck.cov["model_disagreements"] or ck.changed) and not [f for f in failing if not f["tags"]] and tier == "quick":
+        log("[C17] proof/correspondence broken or modelled sources changed: enlarging the search")
         extra = gen_cases(ck, "thorough")[len(cases):]
         failing += evaluate(ck, extra, pool, direct_only=True)
     failing.sort(key=lambda f: len(f["source"]))
